@@ -12,21 +12,98 @@ impl Prop for C06Prop {
         "C06"
     }
     fn rule(&self) -> String {
-        "Streams (proptest tapes): prog / progbig = grammar-derived programs with comments; two renderings r1, r2 of the same token vector that differ only in free gaps (amount and kind of horizontal blanks, indentation, space <-> single line break, zero width where the two lexemes may touch, 2..4 line breaks inside a blank-line group, leading/trailing blanks of the file) while every gap touching a comment and the set of blank-line groups are identical; both must scan back to the same lexemes; x generated configuration. Oracle: format(r1) == format(r2). Cases in which the wrapper logged 'Iteration limit reached' / 'No solution found' are classified separately. Non-trivial = the renderings differ in >= 5 gaps including a newline <-> no-newline change and the output has >= 5 lines; distinct by hash of (r1, r2, configuration)."
+        "Streams (proptest tapes): prog / progbig = grammar-derived programs with comments; two renderings r1, r2 of the same token vector that differ only in free gaps (amount and kind of horizontal blanks, indentation, space <-> single line break, zero width where the two lexemes may touch, 2..4 line breaks inside a blank-line group, leading/trailing blanks of the file) while every gap touching a comment and the set of blank-line groups are identical; both must scan back to the same lexemes; x generated configuration; stream toggled = the same with one `pasfmt off` .. `pasfmt on` region (several spellings and letter cases) between two statement boundaries, kept identical in both renderings. Oracle: format(r1) == format(r2). Cases in which the wrapper logged 'Iteration limit reached' / 'No solution found' are classified separately. Non-trivial = the renderings differ in >= 5 gaps including a newline <-> no-newline change and the output has >= 5 lines; distinct by hash of (r1, r2, configuration)."
             .into()
     }
     fn assumptions(&self) -> Vec<String> {
         vec![
             "blank-line grouping = which gaps between tokens contain at least one blank line".into(),
-            "no verbatim regions or asm blocks in this stream (excluded by the statement)".into(),
+            "stream toggled: one verbatim region between two statement boundaries, byte-identical in both renderings; no asm blocks (excluded by the statement)".into(),
         ]
     }
     fn streams(&self, tier: Tier) -> Vec<Stream> {
-        wf::wf_streams(tier, 2)
+        let mut v = wf::wf_streams(tier, 2);
+        // programs with a verbatim region between two statement boundaries: the region is
+        // identical in both renderings, everything outside it is re-laid out
+        v.push(Stream::random("toggled", if tier == Tier::Quick { 1500 } else { 15000 }, 700));
+        v
     }
     fn generate(&self, stream: &str, t: &mut Tape) -> Option<Case> {
         let cfg = Cfg::gen_unsaturated(t);
-        let w = wf::build(t, wf::fuel_for(stream), Default::default(), None, None)?;
+        let mut w = wf::build(t, wf::fuel_for(stream), Default::default(), None, None)?;
+        if stream == "toggled" {
+            use crate::gen::prog::PTok;
+            use crate::model::refscan::Kind;
+            let n = w.prog.toks.len();
+            // two statements (or members) of the same list: marks of role 0 with the same anchor.
+            // A region that cuts through a compound statement leaves the rest of that statement
+            // as typed (finding F-C08-region-cuts-statement), so both boundaries are list items.
+            let items: Vec<(usize, u32)> = w
+                .prog
+                .marks
+                .iter()
+                .filter(|m| m.role == 0)
+                .map(|m| (m.tok as usize, m.anchor))
+                .filter(|(k, _)| *k > 0 && *k < n && w.prog.toks[*k].line_start && !w.prog.toks[*k].inserted && !w.prog.toks[*k - 1].inserted)
+                .collect();
+            if items.len() < 2 {
+                return None;
+            }
+            let i = t.below(items.len() as u32) as usize;
+            let same: Vec<usize> = items.iter().filter(|(k, an)| *an == items[i].1 && *k > items[i].0).map(|(k, _)| *k).collect();
+            if same.is_empty() {
+                return None;
+            }
+            let (a, b) = (items[i].0, same[t.below(same.len() as u32) as usize]);
+            let off = *t.pick(&["// pasfmt off", "//pasfmt off", "{ pasfmt off }", "// PASFMT OFF", "(* pasfmt off *)", "// pasfmt Off: generated"]);
+            let on = *t.pick(&["// pasfmt on", "//pasfmt on", "{ pasfmt on }", "// pasfmt ON", "(* PasFmt On *)", "// Pasfmt on again"]);
+            let mk = |text: &str, depth: u16| PTok {
+                text: text.to_string(),
+                kind: if text.starts_with("//") { Kind::CommentLine } else { Kind::CommentBlock },
+                line_start: true,
+                depth,
+                in_anon: false,
+                inserted: true,
+                fixed_gap: None,
+            };
+            let mut toks = Vec::with_capacity(n + 2);
+            let mut region = vec![];
+            for (k, tok) in w.prog.toks.iter().enumerate() {
+                if k == a {
+                    region.push(toks.len());
+                    toks.push(mk(off, tok.depth));
+                }
+                if k == b {
+                    region.push(toks.len());
+                    toks.push(mk(on, tok.depth));
+                }
+                toks.push(tok.clone());
+            }
+            // marks are not used by this property
+            w.prog.toks = toks;
+            w.prog.marks.clear();
+            let mut gaps = layout::gen_layout(&w.prog, t, w.style);
+            layout::own_line_fixup(&w.prog, &mut gaps);
+            // everything from the `off` comment to the `on` comment is the same in both renderings
+            for g in gaps.iter_mut().take(region[1] + 1).skip(region[0]) {
+                g.fixed = true;
+            }
+            // the toggle comments stand on their own lines
+            for &r in &region {
+                if gaps[r].nl == 0 {
+                    gaps[r].nl = 1;
+                }
+                if gaps[r + 1].nl == 0 {
+                    gaps[r + 1].nl = 1;
+                }
+            }
+            w.input = layout::render(&w.prog, &gaps);
+            w.gaps = gaps;
+            if !wf::scans_to(&w.input, &w.prog) {
+                return None;
+            }
+            w.prog.tags.insert("toggles");
+        }
         let mut g2 = layout::relayout(&w.prog, &w.gaps, t);
         layout::own_line_fixup(&w.prog, &mut g2);
         // the fix-up may not move fixed gaps: re-impose them
